@@ -56,7 +56,7 @@ def body(ck, F, cfg):
     for n, t in fields + ipp_fields:
         leaf += 1
         role = {"L_vec": "pf.L[*]", "R_vec": "pf.R[*]"}.get(n, "pf." + n)
-        is_point = t in ("G", "std::vec::Vec<G>")
+        is_point = t in ("$T", "std::vec::Vec<$T>")
         if is_point:
             e = base_scalar.get(role)
             ck.require(e is not None and e != 0, "R04.1", f"field:{n}", f"proof point {n} must be a base of the combined check with a non-zero scalar; scalar = {e}", detail=str(e))
